@@ -74,17 +74,31 @@ def merge_overlay(code_lines, base, ghosts):
     in_sync = [norm(l) for l in code_lines] == [norm(l) for l in base]
     pos = {}  # base index -> current index
     same = set()  # base indices whose line is unchanged
+    nothing_new = True
     if in_sync:
         for i in range(len(base) + 1):
             pos[i] = i
         same = set(range(len(base)))
     else:
         sm = difflib.SequenceMatcher(None, bn, cn, autojunk=False)
+        nothing_new = True   # no line was inserted, moved in or rewritten: only in-place edits and deletions
         for tag, i1, i2, j1, j2 in sm.get_opcodes():
+            if tag == 'insert' or (tag == 'replace' and i2 - i1 != j2 - j1):
+                nothing_new = False
             if tag == 'equal':
                 for d in range(i2 - i1):
                     pos[i1 + d] = j1 + d
                     same.add(i1 + d)
+            elif tag == 'replace' and i2 - i1 == j2 - j1:
+                # the same number of lines: line k of the old block stands where line k of the new block stands.  A pair of
+                # lines that are still much alike (an operator, a literal, an operand edited in place) keeps its place as an
+                # anchor of the neighbouring proof hints; a pair that has little in common (code moved or rewritten) does not
+                for d in range(i2 - i1):
+                    pos[i1 + d] = j1 + d
+                    if difflib.SequenceMatcher(None, bn[i1 + d], cn[j1 + d], autojunk=False).ratio() >= 0.75:
+                        same.add(i1 + d)
+                    else:
+                        nothing_new = False
             else:
                 for i in range(i1, i2):
                     pos[i] = j1 if i == i1 else j2
@@ -92,13 +106,17 @@ def merge_overlay(code_lines, base, ghosts):
     # __qN renumbering: base temp number -> current temp number, taken from aligned `let __qN =` lines
     ren = {}
     for bi in same:
+        if bn[bi] != cn[pos[bi]]:
+            continue
         mb = re.search(r'\blet (__q\d+)\b', base[bi])
         mc = re.search(r'\blet (__q\d+)\b', code_lines[pos[bi]])
         if mb and mc and mb.group(1) != mc.group(1):
             ren[mb.group(1)] = mc.group(1)
     inserts = {}
     for bi, g in ghosts.items():
-        placed = (bi == 0 or (bi - 1) in same) and (bi >= len(base) or bi in same)
+        # a function from which statements were only deleted (nothing inserted anywhere, so nothing was moved) keeps every
+        # hint where it was: a hint that fails then fails for want of the deleted statement
+        placed = in_sync or nothing_new or ((bi == 0 or (bi - 1) in same) and (bi >= len(base) or bi in same))
         out = []
         contract = False
         for l in g:
@@ -221,7 +239,7 @@ def build_unit(unit, canary=False, mutate=None, strict=True, only=None):
                 joined = '\n'.join(code)
                 if mutate['find'] not in joined:
                     raise Inconclusive('built-in mutant %s: text not found' % mutate.get('id'))
-                code = joined.replace(mutate['find'], mutate['replace'], 1).split('\n')
+                code = [l for l in joined.replace(mutate['find'], mutate['replace'], 1).split('\n') if l.strip() != '']
             base, ghosts = read_overlay(ov_path(unit, f))
             if base is None:
                 base, ghosts = code, {}
